@@ -138,7 +138,7 @@ func (m C19Msg) entityTypeName() string {
 	if m.Type != "" && m.Type != "-" {
 		return m.Type
 	}
-	return []string{state.EntityType(SUser{}), state.EntityType(SOrder{}), state.EntityType(SNamed{}), state.EntityType([]string{}), state.EntityType(map[string]int{})}[m.Entity]
+	return []string{entName(SUser{}), entName(SOrder{}), entName(SNamed{}), entName([]string{}), entName(map[string]int{})}[m.Entity]
 }
 
 func corruptBytes(data []byte, m C19Msg, other []byte) []byte {
@@ -287,8 +287,8 @@ func (sc *C19Scenario) Execute(t *testing.T) *core.Outcome {
 			out.HarnessErr = fmt.Sprintf("log has %d events for %d messages (%v)", len(stored), len(sc.Msgs), err)
 			return
 		}
-		known := map[string]string{state.EntityType(SUser{}): "user", state.EntityType(SOrder{}): "order", state.EntityType(SNamed{}): "named",
-			state.EntityType([]string{}): "tags", state.EntityType(map[string]int{}): "counts"}
+		known := map[string]string{entName(SUser{}): "user", entName(SOrder{}): "order", entName(SNamed{}): "named",
+			entName([]string{}): "tags", entName(map[string]int{}): "counts"}
 		mat := newC18Mat(false)
 		for i, m := range sc.Msgs {
 			ev := *stored[i]
